@@ -30,6 +30,9 @@ def main():
         old = json.load(open(os.path.join(dst, "meta.json")))
         meta["validated"] = old.get("validated", {})
         meta["needs"] = old.get("needs", "")
+        for k in ("history", "round", "what_was_run"):
+            if k in old:
+                meta[k] = old[k]
     if not skip:
         sh("git checkout -- . && rm -f tests/demo.rs", cwd=wt)
         rc, out = sh("git apply %s" % patch, cwd=wt)
